@@ -5,3 +5,4 @@ import MiniconfVerif.Props.C17
 #print axioms MiniconfVerif.C17.others_untouched
 #print axioms MiniconfVerif.C17.do_post
 #print axioms MiniconfVerif.C17.normalize_spec
+#print axioms MiniconfVerif.C17.source_dispatch_is_model
